@@ -462,6 +462,10 @@ impl Iterator for QueryState<'_> {
             let exception_term =
                 Term::from_heapcell(machine, machine.machine_st.heap[h], &mut var_names.clone());
 
+            // the exception has been delivered to the caller: it must not
+            // be reported again by later queries.
+            machine.machine_st.ball.reset();
+
             if let Term::Compound(functor, args) = &exception_term {
                 if functor == "error" && args.len() == 2 {
                     // We have an error
